@@ -17,6 +17,16 @@ from .. import tlc
 from ..server import World
 from .. import totality as T
 
+RULE = (
+        'executions = one connection per (token line, connection state) for every command line '
+        'TLC enumerates from CmdTokens.tla (command word + <= 2 argument tokens exhaustively in '
+        'thorough, seeded sample in quick; 3 tokens by -simulate), IMAP in 3 states and ManageSieve '
+        'in 2, plus one connection per enumerated stored message that fetches it with every FETCH '
+        'attribute and searches it with every SEARCH key, plus repeated-error connections; each run '
+        'under a watchdog and followed by a NOOP on a second connection. non-trivial = the line '
+        'contains at least one malformed / hostile token or the message a malformed line token; '
+        'distinct = distinct (state, token line)')
+
 FETCH_ATTS = [b'ALL', b'FULL', b'FAST', b'ENVELOPE', b'BODY', b'BODYSTRUCTURE', b'BODY.PEEK[]',
               b'BODY[HEADER]', b'BODY.PEEK[TEXT]', b'BODY.PEEK[1]', b'BODY.PEEK[1.MIME]',
               b'BODY.PEEK[1.1]', b'BODY.PEEK[2.HEADER]', b'BODY.PEEK[HEADER.FIELDS (SUBJECT X-TEST)]',
@@ -31,6 +41,11 @@ SEARCH_KEYS = [b'ALL', b'BODY hello', b'TEXT value', b'SUBJECT a', b'FROM x', b'
 
 def known_sig(clause, meta, tr):
     """narrow signatures of the open known findings"""
+    import re as _re
+    if clause == 'C07_WellFormed' and meta.get('malformed', '') and \
+            meta['malformed'].startswith('atom expected') and \
+            _re.search(r'BODY(STRUCTURE)? \( "[^"]*" ', meta.get('malformed_ctx') or ''):
+        return 'EmptyMultipartBodystructure' 
     if meta['kind'] == 'message' and 'BINARY' in meta.get('last_cmd', '') \
             and meta.get('exc_type') in ('binascii.Error', 'builtins.NotImplementedError') \
             and clause in ('C06_NoException', 'C06_Answered', 'C06_ByeBeforeClose'):
@@ -40,17 +55,14 @@ def known_sig(clause, meta, tr):
 
 def main(tier: str) -> int:
     run = Run('C06', tier)
+    run.cov['rule'] = RULE
+    campaign(run, tier, 'C06_')
+    return run.finish()
+
+
+def campaign(run, tier: str, prefix: str) -> None:
     rng = random.Random(run.seed * 2654435761 % (1 << 31) + 6)
     quick = tier == 'quick'
-    run.cov['rule'] = (
-        'executions = one connection per (token line, connection state) for every command line '
-        'TLC enumerates from CmdTokens.tla (command word + <= 2 argument tokens exhaustively in '
-        'thorough, seeded sample in quick; 3 tokens by -simulate), IMAP in 3 states and ManageSieve '
-        'in 2, plus one connection per enumerated stored message that fetches it with every FETCH '
-        'attribute and searches it with every SEARCH key, plus repeated-error connections; each run '
-        'under a watchdog and followed by a NOOP on a second connection. non-trivial = the line '
-        'contains at least one malformed / hostile token or the message a malformed line token; '
-        'distinct = distinct (state, token line)')
     run.assumptions += [
         'the input quantifier is covered at TOKEN level only: arbitrary and mutated raw byte strings '
         'are not enumerable by a TLA+ model (DESIGN.md section 8)',
@@ -64,7 +76,7 @@ def main(tier: str) -> int:
     run.add_model(mres, 'message line tokens <= 3')
     if not (res.ok and sres.ok and mres.ok):
         run.machinery('CmdTokens enumeration failed')
-        return run.finish()
+        return
     lines = [tuple(s['line']) for s in states2 if s['line']]
     slines = [tuple(s['line']) for s in sstates if s['line']]
     msgs = [tuple(s['line']) for s in mstates if s['line']]
@@ -98,6 +110,7 @@ def main(tier: str) -> int:
         nonlocal w
         traces.append(tr.events)
         m['malformed'] = tr.malformed[1] if tr.malformed else None
+        m['malformed_ctx'] = tr.malformed[2].decode('latin1') if tr.malformed else None
         meta.append(m)
         if hang:
             try:
@@ -174,7 +187,8 @@ def main(tier: str) -> int:
             meta.append({'kind': 'message', 'backend': backend, 'tokens': mt,
                          'last_cmd': last_cmd[:80].decode('latin1'), 'exc_type': exc_type,
                          'bytes': [body[:300].decode('latin1')],
-                         'malformed': tr.malformed[1] if tr.malformed else None})
+                         'malformed': tr.malformed[1] if tr.malformed else None,
+                         'malformed_ctx': tr.malformed[2].decode('latin1') if tr.malformed else None})
             if hang and backend == 'dict':
                 w = None
     if w is not None:
@@ -183,12 +197,12 @@ def main(tier: str) -> int:
     verdicts, vres = tlc.validate_total('Trace_Total.tla', 'Trace_Total.cfg', traces)
     if len(verdicts) != len(traces):
         run.machinery('trace validation incomplete: ' + (vres.error or vres.output[-800:]))
-        return run.finish()
+        return
     other = {}
     for i, ev in enumerate(traces, 1):
         line, clause = verdicts[i]
         m = meta[i - 1]
-        mine = clause.startswith('C06_')
+        mine = clause.startswith(prefix)
         run.count_exec((m['kind'], m.get('state'), m['tokens']),
                        nontrivial=any(t in bad_tokens or t.startswith(('HDR_', 'TEXT_', 'BARE', 'NOEOL', 'WSONLY'))
                                       for t in m['tokens']),
@@ -199,8 +213,8 @@ def main(tier: str) -> int:
             sig = known_sig(clause, m, ev)
             run.violation(f'{clause}: {m["kind"]} state={m.get("state")} tokens={m["tokens"]} '
                           f'bytes={m["bytes"]!r:.300}',
-                          {'check': 'C06', 'meta': m, 'clause': clause, 'events': ev[-12:]}, sig)
+                          {'check': prefix[:3], 'meta': m, 'clause': clause, 'events': ev[-12:]}, sig)
     run.notes['clauses_of_other_properties_seen'] = other
     run.sample(meta[0])
     run.sample(meta[-1])
-    return run.finish()
+    return
